@@ -163,6 +163,68 @@ static void runCycle(GMGPolar& s, int type, bool extrap, int depth, Vector<doubl
     }
 }
 
+// One multigrid cycle written from the documented scheme with the PUBLIC operators of the levels only (smoother, residual,
+// transfers, coarse solve) and harness-owned vectors - none of the solver's private cycle functions, none of its work vectors:
+//   pre-smooth; r = f - A u; restrict (extrapolated on level 0: 4/3 R_ex r - 1/3 (f_c - A_c J u)); coarse error from zero by
+//   direct solve on the coarsest level, else by gamma recursive plain cycles (V: one; W: two; F: an F- then a V-cycle);
+//   prolongate, add; post-smooth.
+static void refCycle(GMGPolar& s, int type, bool extrap, int l, Vector<double>& u, const Vector<double>& f)
+{
+    Level& L  = s.levels_[l];
+    Level& C  = s.levels_[l + 1];
+    const int N = L.grid().numberOfNodes(), Nc = C.grid().numberOfNodes();
+    const bool ex0  = extrap && l == 0;
+    const bool exSm = ex0 && !s.full_grid_smoothing_;
+    Vector<double> tmp(N), r(N), rc(Nc), ec(Nc), e(N);
+    for (int q = 0; q < s.pre_smoothing_steps_; q++) {
+        if (exSm)
+            L.extrapolatedSmoothing(u, f, tmp);
+        else
+            L.smoothing(u, f, tmp);
+    }
+    L.computeResidual(r, f, u);
+    if (ex0) {
+        Vector<double> uc(Nc), r2(Nc);
+        s.interpolation_->applyExtrapolatedRestriction(L, C, rc, r);
+        s.interpolation_->applyInjection(L, C, uc, u);
+        C.computeResidual(r2, C.rhs(), uc);
+        for (int i = 0; i < Nc; i++)
+            rc[i] = 4.0 / 3.0 * rc[i] - 1.0 / 3.0 * r2[i];
+    }
+    else
+        s.interpolation_->applyRestriction(L, C, rc, r);
+    if (l + 1 == s.number_of_levels_ - 1) {
+        ec = rc;
+        C.directSolveInPlace(ec);
+    }
+    else {
+        for (int i = 0; i < Nc; i++)
+            ec[i] = 0.0;
+        if (type == 0)
+            refCycle(s, 0, false, l + 1, ec, rc);
+        else if (type == 1) {
+            refCycle(s, 1, false, l + 1, ec, rc);
+            refCycle(s, 1, false, l + 1, ec, rc);
+        }
+        else {
+            refCycle(s, 2, false, l + 1, ec, rc);
+            refCycle(s, 0, false, l + 1, ec, rc);
+        }
+    }
+    if (ex0)
+        s.interpolation_->applyExtrapolatedProlongation(C, L, e, ec);
+    else
+        s.interpolation_->applyProlongation(C, L, e, ec);
+    for (int i = 0; i < N; i++)
+        u[i] += e[i];
+    for (int q = 0; q < s.post_smoothing_steps_; q++) {
+        if (exSm)
+            L.extrapolatedSmoothing(u, f, tmp);
+        else
+            L.smoothing(u, f, tmp);
+    }
+}
+
 // nested iteration written from the documented description, using the solver object's own operators
 static Vector<double> referenceNestedIteration(const Cfg& k)
 {
@@ -177,7 +239,7 @@ static Vector<double> referenceNestedIteration(const Cfg& k)
         s->interpolation_->applyFMGInterpolation(s->levels_[l], s->levels_[l - 1], x[l - 1], x[l]);
         for (int it = 0; it < k.fmg_it; it++) {
             bool extrap = (l - 1 == 0) && (k.extr != 0);
-            runCycle(*s, k.fmg_cycle, extrap, l - 1, x[l - 1], s->levels_[l - 1].rhs(), s->levels_[l - 1].residual());
+            refCycle(*s, k.fmg_cycle, extrap, l - 1, x[l - 1], s->levels_[l - 1].rhs());
         }
     }
     return x[0];
@@ -727,36 +789,21 @@ static void modeCycle(const Case& c)
                 }
             os << " algcols=" << cols << " algworst=" << dec(worst) << " algcol=" << worstCol;
         }
-        // ---- (c) WITH smoothing a two-level cycle is  S^post o (coarse-grid correction) o S^pre,  composed here from the level's
-        //          public smoother and the algebraic correction (the smoothing-step counters and which smoother runs on level 0
-        //          are part of the scheme)
-        if (L == 2 && (k.pre + k.post) > 0 && c.i("do_alg", 1)) {
-            Vector<double> fc = s->levels_[1].rhs().size() ? s->levels_[1].rhs() : Vector<double>(s->levels_[1].grid().numberOfNodes());
+        // ---- (c) on EVERY hierarchy depth and with every smoothing count the cycle equals the reference cycle composed from the
+        //          public operators (refCycle above): smoothing-step counters, which smoother runs on level 0, the level indices of
+        //          the transfers, the recursion pattern of V / W / F and the zero start of every coarse solve are part of the scheme
+        if (c.i("do_alg", 1)) {
             double worst = 0;
             int cols     = 0;
-            Vector<double> u(N), f(N), res(N), tmp(N);
-            const bool exSmooth = extrap && !s->full_grid_smoothing_;
+            Vector<double> u(N), f(N), res(N);
             for (int j = 0; j < 4; j++) {
                 for (int i = 0; i < N; i++) {
                     u[i] = (j == 3 ? 100.0 : 0.01) * filler(seed + 50 + j, i);
                     f[i] = (j == 2 ? 0.0 : 0.01) * filler(seed + 60 + j, i);
                 }
-                Vector<double> x = u, rhs = f;
-                for (int q = 0; q < k.pre; q++) {
-                    fill(tmp, seed + 70 + q);
-                    if (exSmooth)
-                        L0.extrapolatedSmoothing(x, rhs, tmp);
-                    else
-                        L0.smoothing(x, rhs, tmp);
-                }
-                Vector<double> expect = algebraicCorrection(*s, extrap, x, rhs, fc);
-                for (int q = 0; q < k.post; q++) {
-                    fill(tmp, seed + 80 + q);
-                    if (exSmooth)
-                        L0.extrapolatedSmoothing(expect, rhs, tmp);
-                    else
-                        L0.smoothing(expect, rhs, tmp);
-                }
+                Vector<double> expect = u;
+                refCycle(*s, type, extrap, 0, expect, f);
+                fillWork(*s, seed + 70 + j); // the solver's own work vectors hold old data when its cycle starts
                 Vector<double> got = u, rhs2 = f;
                 fill(res, seed + 90 + j);
                 runCycle(*s, type, extrap, 0, got, rhs2, res);
